@@ -24,7 +24,8 @@ EXPLANATION = (
     'the claimed name; (BND.1) every copy sink on the input path matches a bounded idiom; (GRD.2) the '
     'password is stored and forwarded only after the mode-prefix test and the account/password separator '
     'test; (WMC.1) queries are sent only by the builder and the MORE path.  String contents are not decided.'
-    ' Rounds 8-9: (MPT.4) a slot that changes hands forgets its per-client bits - eagerly, or lazily by epochs with every look at a mask reached only on an up-to-date client; (COPY.1/MPT.5/MPT.6) shared: the parser\'s group move, merge change tracking, required-data mask; (BND.6) the program\'s own strlcpy keeps its contract.')
+    ' Rounds 8-9: (MPT.4) a slot that changes hands forgets its per-client bits - eagerly, or lazily by epochs with every look at a mask reached only on an up-to-date client; (COPY.1/MPT.5/MPT.6) shared: the parser\'s group move, merge change tracking, required-data mask; (BND.6) the program\'s own strlcpy keeps its contract.'
+    " Hunt round 1: (GRD.2) a password - not only blanks - follows the account; (GRD.8) an empty ident does not make the user name known; (MPT.7) a store of a service's protocol is on a freshly stamped entry or re-stamps it where the protocol differs.")
 ASSUMPTIONS = ['clang 14 CFG; the module constructor is straight-line code', 'documented prerequisite table from the property statement and the header comment of iauth_xquery.c']
 
 EXPECTED = {
